@@ -38,8 +38,8 @@ ASSUMPTIONS = [
     "append(image, offset) documents the stored time of the appended slice as its own time plus offset",
 ]
 FLOORS = {
-    "quick": {"strided_time_intervals": 40, "stack_inputs_untouched": 300, "block_data": 2500, "placement": 2500, "time_stamps": 1000, "physical_equals_voxel_box": 300, "stack_roundtrip": 300, "sibling_extractions": 300, "roi_object_reused": 100},
-    "thorough": {"strided_time_intervals": 400, "stack_inputs_untouched": 3000, "block_data": 30000, "placement": 30000, "time_stamps": 12000, "physical_equals_voxel_box": 3000, "stack_roundtrip": 3000, "sibling_extractions": 3000, "roi_object_reused": 1000},
+    "quick": {"series_of_mixed_data_types": 30, "strided_time_intervals": 40, "stack_inputs_untouched": 300, "block_data": 2500, "placement": 2500, "time_stamps": 1000, "physical_equals_voxel_box": 300, "stack_roundtrip": 300, "sibling_extractions": 300, "roi_object_reused": 100},
+    "thorough": {"series_of_mixed_data_types": 300, "strided_time_intervals": 400, "stack_inputs_untouched": 3000, "block_data": 30000, "placement": 30000, "time_stamps": 12000, "physical_equals_voxel_box": 3000, "stack_roundtrip": 3000, "sibling_extractions": 3000, "roi_object_reused": 1000},
 }
 
 
@@ -396,6 +396,16 @@ def run_shard(spec, R):
                 im.set_time()
             elif time_kind == "time":
                 im.time = times[k]
+        mixed_dt = None
+        if n % 5 == 4:
+            # the images of one series hold different data types (the narrower one first, as often as not): the series
+            # holds every slab's values exactly, in the common type numpy promotes to
+            mixed_dt = [[np.float32, np.float64, np.uint8, np.int16][int(rng.integers(0, 4))] for _ in range(count)]
+            if len(set(mixed_dt)) == 1:
+                mixed_dt[0] = np.float32 if mixed_dt[0] is not np.float32 else np.float64
+            for im, dt_ in zip(origs, mixed_dt):
+                im.img = (im.img % 100 + 0.1 * (np.dtype(dt_).kind == "f")).astype(dt_)  # non-integral for the float types
+            R.count("series_of_mixed_data_types")
         snap = [(im.img.copy(), im.date, im.time) for im in origs]
         case = {"series": n, "dim": dim, "payload": payload, "time_kind": time_kind, "how": how, "count": count, "shape": list(shape),
                 "offsets": offsets if how == "append" else None}
@@ -420,7 +430,13 @@ def run_shard(spec, R):
             ok, sl = R.guarded("time_slice_of_stack", lambda: ser.time_slice(k))
             if not ok:
                 continue
-            R.check(np.array_equal(sl.img, snap[k][0]) and sl.img.dtype == snap[k][0].dtype, "stack_roundtrip", {**case, "k": k, "what": "data"})
+            if mixed_dt is None:
+                R.check(np.array_equal(sl.img, snap[k][0]) and sl.img.dtype == snap[k][0].dtype, "stack_roundtrip", {**case, "k": k, "what": "data"})
+            else:
+                common = np.result_type(*mixed_dt)
+                R.check(sl.img.dtype == common and np.array_equal(sl.img, snap[k][0].astype(common)), "stack_roundtrip",
+                        lambda: {**case, "k": k, "what": "data of a series of mixed data types", "dtypes": [np.dtype(d).name for d in mixed_dt], "slice_dtype": sl.img.dtype.name,
+                                 "max_diff": float(np.max(np.abs(sl.img.astype(float) - snap[k][0].astype(float))))}, group="mixed_dtypes")
             R.check(sl.date == snap[k][1], "stack_roundtrip", {**case, "k": k, "what": "date", "got": str(sl.date), "expected": str(snap[k][1])})
             if time_kind == "date":
                 exp_t = (dates[k] - dates[0]).total_seconds()
